@@ -10,20 +10,20 @@ import (
 type ArgKind uint8
 
 const (
-	AKey     ArgKind = iota // identifier | attribute expression | string literal | `_`
-	AKeyNoLit               // identifier | attribute expression
-	AStr                    // string literal
-	ABool                   // bool literal
-	AExpr                   // arbitrary expression
-	AStrOrKey               // string literal | identifier | attribute expression
-	APattern                // string literal holding a valid grok pattern
-	ACastType               // "bool" | "int" | "float" | "str" | "string"
-	APrecision              // "s" | "ms"
-	ATimeFmt                // a layout name of the datetime table (or junk)
-	AZone                   // a time-zone spelling
-	AXPath                  // an XPath expression (string literal)
-	ARegexp                 // a regular expression (string literal)
-	AScript                 // string literal naming a sibling script
+	AKey       ArgKind = iota // identifier | attribute expression | string literal | `_`
+	AKeyNoLit                 // identifier | attribute expression
+	AStr                      // string literal
+	ABool                     // bool literal
+	AExpr                     // arbitrary expression
+	AStrOrKey                 // string literal | identifier | attribute expression
+	APattern                  // string literal holding a valid grok pattern
+	ACastType                 // "bool" | "int" | "float" | "str" | "string"
+	APrecision                // "s" | "ms"
+	ATimeFmt                  // a layout name of the datetime table (or junk)
+	AZone                     // a time-zone spelling
+	AXPath                    // an XPath expression (string literal)
+	ARegexp                   // a regular expression (string literal)
+	AScript                   // string literal naming a sibling script
 )
 
 // Shape is one argument list a builtin accepts. Variadic: the last kind may
@@ -87,10 +87,10 @@ var (
 // BuiltinArgs draws the arguments for one shape; expr supplies arbitrary
 // expressions; scripts the names use() may target.
 type BuiltinArgs struct {
-	R      *rand.Rand
-	Expr   func() *gt.T
-	Keys   []string
-	Attr   bool // allow attribute expressions as keys
+	R    *rand.Rand
+	Expr func() *gt.T
+	Keys []string
+	Attr bool // allow attribute expressions as keys
 }
 
 func (b *BuiltinArgs) pick(l []string) string { return l[b.R.Intn(len(l))] }
